@@ -1336,3 +1336,45 @@ m('seed2-c05-finalize-raw-div', ['C05', 'C06'], 'break', MOD, '_finalize_average
 m('seed2-c01-steps-per-epoch', ['C01', 'C04'], 'break', CD, 'ShuffleRepeatBatchView.__init__',
   "self._data_size * hparams.num_epochs // hparams.batch_size", "self._data_size // hparams.batch_size * hparams.num_epochs", mode='expr',
   expect='R-SIZE.steps')
+
+# ---- fourth batch: rules added for the second half of round 2 ----
+FDM = 'fedjax/core/federated_data.py'
+m('seed2-c15-seed-truthiness', 'C15', 'break', FDM, 'shuffle_repeat_batch_federated_data',
+  "rng.randint(1 << 32)", "rng.randint(1 << 32) if seed else None", mode='expr', expect='R-FORWARD.none-test')
+m('seed2-c15-kwargs-dropped', 'C15', 'break', FDM, 'padded_batch_federated_data',
+  "client_datasets.padded_batch_client_datasets(datasets, hparams, **kwargs)", "client_datasets.padded_batch_client_datasets(datasets, hparams)",
+  mode='expr', expect='R-FORWARD')
+m('seed2-c17-clipnorm-truthiness', 'C17', 'break', MIMELITE, 'mime_lite.apply', "client_delta_clip_norm is not None", "client_delta_clip_norm",
+  mode='expr', expect='R-')
+m('seed2-c20-crop-swapped', 'C20', 'break', CIFAR, 'preprocess_batch_tff',
+  "preprocess_image_tff(examples['x'], crop_height, crop_width, distort)", "preprocess_image_tff(examples['x'], crop_width, crop_height, distort)",
+  mode='expr', expect='R-FORWARD.swapped')
+m('seed2-c20-crop-keywords-twin', 'C20', 'neutral', CIFAR, 'preprocess_batch_tff',
+  "preprocess_image_tff(examples['x'], crop_height, crop_width, distort)",
+  "preprocess_image_tff(examples['x'], crop_width=crop_width, crop_height=crop_height, distort=distort)", mode='expr')
+m('seed2-c20-reshape-not-transpose', 'C20', 'break', MSH, 'create_lstm_model.forward_pass',
+  "output = jnp.transpose(output, axes=(1, 0, 2))", "output = jnp.reshape(output, (x.shape[1], x.shape[0], full_vocab_size))", expect='R-ROW.layout')
+m('seed2-c20-swapaxes-twin', 'C20', 'neutral', MSH, 'create_lstm_model.forward_pass',
+  "output = jnp.transpose(output, axes=(1, 0, 2))", "output = jnp.swapaxes(output, 0, 1)")
+m('seed2-c20-vocab-one-short', 'C20', 'break', DSO, 'StackoverflowTokenizer.__init__',
+  "vocab = default_vocab(default_vocab_size)", "vocab = default_vocab(default_vocab_size - num_oov_buckets)", expect='R-CONST.vocab')
+m('seed2-c14-log-of-softmax', 'C14', 'break', MET, 'unreduced_cross_entropy_loss',
+  "log_preds = jax.nn.log_softmax(preds)", "log_preds = jnp.log(jax.nn.softmax(preds))", expect='R-XENT.stable')
+m('seed2-c14-logsumexp-twin', 'C14', 'neutral', MET, 'unreduced_cross_entropy_loss',
+  "log_preds = jax.nn.log_softmax(preds)", "log_preds = preds - jax.scipy.special.logsumexp(preds, axis=-1, keepdims=True)")
+multi('seed2-c16-commit-in-exit', 'C16', 'break', [
+    dict(file=SQL, func='SQLiteFederatedDataBuilder.add_many', old="self._connection.commit()", new="pass"),
+    dict(file=SQL, func='SQLiteFederatedDataBuilder.__exit__', old="self._connection.close()", new="self._connection.commit()\nself._connection.close()"),
+], expect='R-PAIR.commit')
+m('seed2-c17-eval-setdefault', ['C17', 'C10'], 'break', APFL, 'eval_adaptive_personalized_federated_learning.__fn',
+  "server_state.client_states.get(cid, client_default_state)", "server_state.client_states.setdefault(cid, client_default_state)", mode='expr',
+  expect={'C17': 'R-PARTICIPANT.table', 'C10': 'R-PURE'})
+multi('seed2-c18-shape-cache', ['C18', 'C10'], 'break', [
+    dict(file=WH, func='structured_rotation_pytree', old="rngs = jax.random.split(rng, len(leaves))",
+         new="global _SHAPE_CACHE\nrngs = jax.random.split(rng, len(leaves))\n_SHAPE_CACHE = len(leaves)"),
+], expect={'C18': 'R-PURE', 'C10': 'R-PURE'})
+m('seed2-c11-mean-clamped-weight', ['C11', 'C07'], 'break', TU, '_tree_inverse_weight_eq',
+  "1.0 / weight if weight > 0.0 else 0.0", "1.0 / max(weight, 1.0)", mode='expr', expect='R-DIV')
+m('seed2-c13-unsorted-ids', ['C13', 'C08'], 'break', IMFD, 'InMemoryFederatedData.__init__',
+  "sorted(self._client_to_data_mapping.keys())", "list(self._client_to_data_mapping.keys())", mode='expr',
+  expect={'C13': 'R-STREAM.sorted', 'C08': 'R-ORDER.sorted'})
